@@ -10,12 +10,15 @@ C07 driver.  Case lines (see `harness/c07.go`):
 
   table = `_` or `;`-separated <field hex>/<answer>: the answers of idna.ToASCII (`!` = error)
           for every blank-separated token of the comment-stripped line
-  fmt   = Addr.MarshalText() of the record's address (= Addr.String() for valid addresses)
+  fmt   = Addr.MarshalText() of the record's address as the real code printed it; ignored by the
+          model since `netip.Addr.MarshalText` is modelled (`Go/NetipFmt.lean`, `addrMarshalText`):
+          the marshalled line the model prints is built with the model's own address text
   addr  = invalid | v4:<hex> | v6:<hex>:<zone hex>
   names = `_` or `,`-separated hex
 -/
 import GolibsVerif.Driver.C02
 import GolibsVerif.Model.C07
+import GolibsVerif.Go.NetipFmt
 
 namespace GolibsVerif.Driver.C07
 open GolibsVerif GolibsVerif.Netutil GolibsVerif.Netip GolibsVerif.C07 GolibsVerif.Driver
@@ -99,20 +102,20 @@ def handle (op : String) (args : List String) : Option String :=
     match args with
     | [a, ns, fmt] =>
       match parseAddrSpec a, parseNames ns, hexDecode fmt with
-      | some a, some ns, some fmt =>
-        some (hexEncode (marshalText (fun _ => fmt) { addr := a, source := [], names := ns }))
+      | some a, some ns, some _ =>
+        some (hexEncode (marshalText addrMarshalText { addr := a, source := [], names := ns }))
       | _, _, _ => some "bad-op"
     | _ => some "bad-op"
   | "C07.roundtrip" =>
     match args with
     | [line, tbl, fmt] =>
       match hexDecode line, parseTable tbl, hexDecode fmt with
-      | some line, some tbl, some fmt =>
+      | some line, some tbl, some _ =>
         some (withTable tbl fun toA =>
           match unmarshalText toA zeroRec line with
           | .error p => showPanic p
           | .ok (r, e) =>
-            let m := marshalText (fun _ => fmt) r
+            let m := marshalText addrMarshalText r
             s!"{showResult (.ok (r, e))} => {hexEncode m} => {showResult (unmarshalText toA zeroRec m)}")
       | _, _, _ => some "bad-op"
     | _ => some "bad-op"
